@@ -6,10 +6,11 @@ Open Scope string_scope.
 Open Scope nat_scope.
 Open Scope list_scope.
 
-(* A history that exhibits a known finding is emitted several times by the harness: once with
-   [MCore] (correspondence and every clause except the two refuted ones) and once per finding with
-   the mode that evaluates only that finding's clause. [MAll] evaluates everything. *)
-Inductive mode := MAll | MCore | MTimeout | MGone.
+(* A history that exhibits the known finding (a command is given up after a Delete call failed on all
+   attempts while another candidate was already deleted) is emitted twice by the harness: once with
+   [MCore] (correspondence and every clause except the refuted one, without a key) and once with
+   [MPartial], which evaluates only that clause and carries the finding's key. [MAll] evaluates everything. *)
+Inductive mode := MAll | MCore | MPartial.
 
 Inductive case := Case (m : mode) (n : nat) (steps : list (op * obs)).
 
@@ -25,7 +26,7 @@ Definition effect_eqb (a b : effect) : bool :=
   match a, b with
   | ETaint x, ETaint y | ECond x, ECond y | EUntaint x, EUntaint y | EClear x, EClear y => x =? y
   | ECreate k j m, ECreate k' j' m' => (k =? k') && (j =? j') && Bool.eqb m m'
-  | EDelete x r, EDelete y r' => (x =? y) && Bool.eqb r r'
+  | EDelete x a t, EDelete y a' t' => (x =? y) && Bool.eqb a a' && Bool.eqb t t'
   | _, _ => false
   end.
 
@@ -50,11 +51,9 @@ Definition repls_eqb (a b : snap) := list_eqb rsnap_eqb (sn_repls a) (sn_repls b
 (* the clauses evaluated on one implementation step *)
 Definition oracle (m : mode) (x : ostep) : list string :=
   let core := match m with MAll | MCore => true | _ => false end in
-  let t := match m with MAll | MTimeout => true | _ => false end in
-  let g := match m with MAll | MGone => true | _ => false end in
-  (if core && negb (del_after_init_b x) then ["oracle:candidate-deleted-before-replacements-initialized"] else []) ++
+  let t := match m with MAll | MPartial => true | _ => false end in
+  (if core && negb (del_after_init_b x) then ["oracle:candidate-deleted-before-replacements-ready"] else []) ++
   (if t && negb (failed_deletes_nothing_b x) then ["oracle:failed-command-deleted-a-candidate"] else []) ++
-  (if g && negb (del_while_ready_b x) then ["oracle:candidate-deleted-while-a-replacement-is-gone"] else []) ++
   (if core && negb (failed_rolls_back_b x) then ["oracle:failed-command-not-rolled-back"] else []) ++
   (if core && negb (start_failure_inert_b x) then ["oracle:failed-start-not-inert"] else []) ++
   (if core && negb (cleanup_restores_b x) then ["oracle:cleanup-left-stale-marking"] else []) ++
